@@ -35,6 +35,10 @@ structure Conn where
   dropped : Bool
   /-- live `QuicRouterEntry` for the client-chosen original DCID (server side) -/
   odcid : Option Cid
+  /-- ghost: the entry `odcid` still owns its route.  `false` once another connection has re-registered the same signpost
+  (`QuicRouter::insert` overwrites): the entry object is alive, the route is not this connection's any more.  No operation
+  reads it; dropping the entry runs the same `remove_if(same queue)` either way. -/
+  olive : Bool
   /-- every NEW_CONNECTION_ID frame emitted, in order (ghost: what the recording `SendFrame` saw) -/
   frames : List NewCid
   deriving Repr
@@ -52,6 +56,10 @@ inductive Op where
   | clear (k : Nat)
   | drop (k : Nat)
   | dropOdcid (k : Nat)
+  /-- the connection releases its own `Arc<RcvdPacketQueue>`.  `QuicRouterEntry::remove` compares the table's queue with
+  its `Weak` by pointer (`Weak::ptr_eq`), without upgrading: whether the queue is still alive has no influence on the
+  table, so this is a step without effect — in any order with `drop` / `dropOdcid`. -/
+  | relQueue (k : Nat)
   | route (c : Cid)
   deriving Repr
 
@@ -73,8 +81,18 @@ def setConn (s : Sys) (k : Nat) (c : Conn) : Sys := { s with conns := s.conns.se
 
 def insertAll (t : Table) (k : Nat) (fs : List NewCid) : Table := fs.foldl (fun t f => t.insert f.cid k) t
 
-def step (s : Sys) : Op → Sys × Obs
+/-- `QuicRouter::insert(od, queue_k)` by a new connection overwrites the table entry: a connection that holds the entry
+object of the same signpost keeps the object, not the route (ghost flag `olive`) -/
+def supersedeC (c : Cid) (cn : Conn) : Conn :=
+  if cn.odcid = some c then { cn with olive := false } else cn
+
+def supersede (s : Sys) : Option Cid → Sys
+  | none => s
+  | some c => { s with conns := s.conns.map (supersedeC c) }
+
+def step (s0 : Sys) : Op → Sys × Obs
   | .conn od =>
+    let s := supersede s0 od
     let k := s.conns.length
     let scid := Cid.gen s.next
     let t1 := s.table.insert scid k
@@ -83,9 +101,10 @@ def step (s : Sys) : Op → Sys × Obs
     let (l, f) := Local.new scid c1
     let t3 := t2.insert c1 k
     ({ next := s.next + 2, table := t3,
-       conns := s.conns ++ [{ loc := l, poisoned := false, dropped := false, odcid := od, frames := [f] }] },
+       conns := s.conns ++ [{ loc := l, poisoned := false, dropped := false, odcid := od, olive := true, frames := [f] }] },
      .created k scid [f])
   | .setLimit k n =>
+    let s := s0
     match s.conns[k]? with
     | none => (s, .bad)
     | some c =>
@@ -98,6 +117,7 @@ def step (s : Sys) : Op → Sys × Obs
           ({ next := s.next + fs.length, table := insertAll s.table k fs,
              conns := s.conns.set k { c with loc := l, frames := c.frames ++ fs } }, .ok fs [])
   | .retire k seq =>
+    let s := s0
     match s.conns[k]? with
     | none => (s, .bad)
     | some c =>
@@ -110,6 +130,7 @@ def step (s : Sys) : Op → Sys × Obs
           ({ next := s.next + 1, table := (s.table.insert f.cid k).erase old,
              conns := s.conns.set k { c with loc := l, frames := c.frames ++ [f] } }, .ok [f] [old])
   | .clear k =>
+    let s := s0
     match s.conns[k]? with
     | none => (s, .bad)
     | some c =>
@@ -119,6 +140,7 @@ def step (s : Sys) : Op → Sys × Obs
         let (l, gone) := c.loc.clear
         ({ s with table := s.table.eraseAll gone, conns := s.conns.set k { c with loc := l } }, .ok [] gone)
   | .drop k =>
+    let s := s0
     match s.conns[k]? with
     | none => (s, .bad)
     | some c =>
@@ -129,6 +151,7 @@ def step (s : Sys) : Op → Sys × Obs
         ({ s with table := s.table.eraseAll gone, conns := s.conns.set k { c with loc := l, dropped := true } },
          .ok [] gone)
   | .dropOdcid k =>
+    let s := s0
     match s.conns[k]? with
     | none => (s, .bad)
     | some c =>
@@ -136,7 +159,11 @@ def step (s : Sys) : Op → Sys × Obs
       | none => (s, .bad)
       | some od =>
         ({ s with table := s.table.removeIf od k, conns := s.conns.set k { c with odcid := none } }, .ok [] [])
-  | .route c => (s, .routed (s.table.lookup c))
+  | .relQueue k =>
+    match s0.conns[k]? with
+    | none => (s0, .bad)
+    | some _ => (s0, .ok [] [])
+  | .route c => (s0, .routed (s0.table.lookup c))
 
 def run (ops : List Op) : Sys := ops.foldl (fun s o => (s.step o).1) init
 
